@@ -23,6 +23,7 @@ type Query implements Node {
   list(xs: [[Int]!]): [Int]
   req(a: Int!, b: Int! = 2): Int
   many(fs: [Filter!]): Int
+  trio: Trio
 }
 type Mutation { set(in: Filter!): Pet }
 type Subscription { tick(every: Int): Int tock: Int pet: Pet }
@@ -33,6 +34,7 @@ type Person implements Named & Node { id: ID! name(short: Boolean): String pets(
 type Robot { id: ID! model: String }
 union Result = Pet | Person
 union Thing = Pet | Robot
+union Trio = Pet | Person | Robot
 enum Kind { DOG CAT }
 input Filter { name: String = "n" kinds: [Kind!] = [DOG] sub: Filter min: Int! = 0 req: Boolean! }
 input OneIn @oneOf { a: Int b: String }
